@@ -47,9 +47,11 @@ structure State where
   suspended : List Nat
   /-- ghost: content of a barrier's channel at the moment the barrier was dropped. -/
   lost : Nat → List Report
+  /-- ghost: parked trigger calls whose future was dropped (task cancelled, host crashed): nobody is left to resume -/
+  abandoned : List Nat
 
 def init : State :=
-  { regs := [], nextB := 0, nextT := 0, handles := [], suspended := [], lost := fun _ => [] }
+  { regs := [], nextB := 0, nextT := 0, handles := [], suspended := [], lost := fun _ => [], abandoned := [] }
 
 inductive Op
   | build (r : Reaction) (c : Event → Bool)
@@ -58,6 +60,8 @@ inductive Op
   | wait (b : Nat)
   | dropHandle (t : Nat)
   | dropBarrier (b : Nat)
+  /-- the parked `trigger` future of call `t` is dropped (its task was cancelled / its host crashed) -/
+  | abandon (t : Nat)
 
 inductive Res
   | built (b : Nat)
@@ -94,6 +98,9 @@ def removeId (b : Nat) (regs : List Entry) : List Entry := regs.filter (fun e =>
 def heldTids (q : List Report) : List Nat := (q.filter (·.holds)).map (·.tid)
 
 def without (xs rel : List Nat) : List Nat := xs.filter (fun x => !rel.contains x)
+
+/-- of the calls whose sender just died, those that are still there to be resumed -/
+def stillParked (susp rel : List Nat) : List Nat := rel.filter (fun t => susp.contains t)
 
 /-- What `trigger(t).await` does up to its first suspension point. -/
 def stepTrigger (s : State) (ev : Event) : State × Out :=
@@ -134,7 +141,7 @@ def step (s : State) : Op → State × Out
   | .dropHandle t =>
     let rel := heldTids (s.handles.filter (fun r => r.tid == t))
     ({ s with handles := s.handles.filter (fun r => r.tid != t), suspended := without s.suspended rel },
-      ⟨.ok, rel⟩)
+      ⟨.ok, stillParked s.suspended rel⟩)
   | .dropBarrier b =>
     if isLive b s.regs then
       let q := queueOf b s.regs
@@ -142,8 +149,12 @@ def step (s : State) : Op → State × Out
       ({ s with regs := removeId b s.regs,
                 lost := fun x => if x = b then q else s.lost x,
                 suspended := without s.suspended rel },
-        ⟨.ok, rel⟩)
+        ⟨.ok, stillParked s.suspended rel⟩)
     else (s, ⟨.invalid, []⟩)
+  | .abandon t =>
+    ({ s with suspended := s.suspended.filter (fun x => x != t),
+              abandoned := if s.suspended.contains t then s.abandoned ++ [t] else s.abandoned },
+      ⟨.ok, []⟩)
 
 /-- Outputs of a run. -/
 def run : State → List Op → List Out
